@@ -25,9 +25,16 @@ type cI12 interface {
 	cI1
 	cI2
 }
+
+// cI3 is a sealed interface: it has an unexported method, so only types of this package implement it.
+type cI3 interface {
+	M1() string
+	sealed()
+}
 type cT1 struct{ Tag string }
 
 func (t cT1) M1() string { return t.Tag }
+func (t cT1) sealed()    {}
 
 type cT2 struct{ Tag string }
 
@@ -55,7 +62,8 @@ var (
 	tyI1   = reflect.TypeOf((*cI1)(nil)).Elem()
 	tyI2   = reflect.TypeOf((*cI2)(nil)).Elem()
 	tyI12  = reflect.TypeOf((*cI12)(nil)).Elem()
-	c04Tys = []reflect.Type{tyT1, tyPT1, tyPT2, tyT3, tyPT4, tyS, tyN, tyCh, tyRCh, tyI1, tyI2, tyI12}
+	tyI3   = reflect.TypeOf((*cI3)(nil)).Elem()
+	c04Tys = []reflect.Type{tyT1, tyPT1, tyPT2, tyT3, tyPT4, tyS, tyN, tyCh, tyRCh, tyI1, tyI2, tyI12, tyI3}
 )
 
 func tyName(t reflect.Type) string { return t.String() }
@@ -290,7 +298,7 @@ func pickParam(rng *rand.Rand, regs []injReg) reflect.Type {
 	key := tyByName(regs[rng.Intn(len(regs))].Key)
 	if rng.Intn(2) == 0 {
 		var ifs []reflect.Type
-		for _, it := range []reflect.Type{tyI1, tyI2, tyI12} {
+		for _, it := range []reflect.Type{tyI1, tyI2, tyI12, tyI3} {
 			if key.Implements(it) {
 				ifs = append(ifs, it)
 			}
@@ -541,6 +549,8 @@ func buildScopes(c *injCase, chans map[string]string) ([]inject.Injector, scopeT
 				scopes[rg.Scope].MapTo(v.Interface(), (*cI1)(nil))
 			case tyI2:
 				scopes[rg.Scope].MapTo(v.Interface(), (*cI2)(nil))
+			case tyI3:
+				scopes[rg.Scope].MapTo(v.Interface(), (*cI3)(nil))
 			default:
 				scopes[rg.Scope].MapTo(v.Interface(), (*cI12)(nil))
 			}
@@ -833,6 +843,8 @@ func applyReg(m inject.TypeMapper, rg injReg, chans map[string]string) {
 			m.MapTo(v.Interface(), (*cI1)(nil))
 		case tyI2:
 			m.MapTo(v.Interface(), (*cI2)(nil))
+		case tyI3:
+			m.MapTo(v.Interface(), (*cI3)(nil))
 		default:
 			m.MapTo(v.Interface(), (*cI12)(nil))
 		}
@@ -1010,7 +1022,7 @@ func judgeFlameInj(w *core.W, c *flameInjCase) {
 }
 
 func runC04(r *core.Run) {
-	r.Rule("(A) 1-3 nested injectors, random registration histories (Map / MapTo / Set, re-registrations) over 12 types (structs, pointers, named string/int, chan int, <-chan int via Set, three interfaces with overlapping implementor sets incl. an embedding one), handlers with 0-4 parameters built with reflect.MakeFunc, ten hand-written FastInvoker wrappers over the same universe (compared with the plain function), Apply on a struct with tagged / untagged / unexported-tagged fields. (B) the real scopes: Flame.Map* (application) and Context.Map* in an earlier handler (request), a following request that must not see request-scoped values, and the built-in automatic wrappings receiving the request's own Context / ResponseWriter / *http.Request / logger. Oracle: resolution over the harness's own registration table - nearest scope first; exact type, else any implementor registered in that scope (any member acceptable: the implementation iterates a map), else outwards; unresolved => error naming the type and body not run. non-trivial = distinct cases with candidates in >=2 scopes, exact and implementor candidates, re-registration or an unresolvable parameter")
+	r.Rule("(A) 1-3 nested injectors, random registration histories (Map / MapTo / Set, re-registrations) over 13 types (structs, pointers, named string/int, chan int, <-chan int via Set, four interfaces with overlapping implementor sets incl. an embedding one and a sealed one with an unexported method), handlers with 0-4 parameters built with reflect.MakeFunc, ten hand-written FastInvoker wrappers over the same universe (compared with the plain function), Apply on a struct with tagged / untagged / unexported-tagged fields. (B) the real scopes: Flame.Map* (application) and Context.Map* in an earlier handler (request), a following request that must not see request-scoped values, and the built-in automatic wrappings receiving the request's own Context / ResponseWriter / *http.Request / logger. Oracle: resolution over the harness's own registration table - nearest scope first; exact type, else any implementor registered in that scope (any member acceptable: the implementation iterates a map), else outwards; unresolved => error naming the type and body not run. non-trivial = distinct cases with candidates in >=2 scopes, exact and implementor candidates, re-registration or an unresolvable parameter")
 	r.Assume("only well-typed registrations; no variadic handlers; Map(nil) excluded")
 	c04Canaries(r)
 	r.Parallel("inj", r.N(100000, 8000000), func(w *core.W, rng *rand.Rand, i int) {
